@@ -2,7 +2,7 @@ SPECIFICATION Spec
 CONSTANTS
   Reqs = {1, 2}
   MaxSock = 2
-  MaxEv = 1
+  MaxEv = 0
   MaxUnsol = 0
   Limit = 1
   Timed = FALSE
@@ -13,4 +13,5 @@ INVARIANT SemConsistent
 INVARIANT NoOrphan
 PROPERTY NoWriteAfterFault
 PROPERTY NoStaleCompletion
+PROPERTY StaleLossHarmless
 CHECK_DEADLOCK FALSE
